@@ -23,6 +23,17 @@ against the parent frame at visit time — same data dependencies, checked by th
 `flattenSpec` is denotational: an instance is a path of step names; the value of a parameter is the
 argument supplied along the call chain (or the declared default), looked up lazily (`valueOf`).
 
+Non-string parameter values: a value is either text (a token list) or exactly one `dict` / `num` token
+(a YAML dictionary / a number or boolean).  `%(p)s` as the *whole* value forwards the value with its type
+(`substV`); `%(p)s` inside a longer string inserts `str(value)` for a number and is an error for a dictionary
+(`embed`; the code raises `ValueError`, reported at the field's location: modelled as "the parameter reference
+stays", which is exactly what the error checks of the callers look at).  A component may use one parameter as
+its `command.environment` (`envParam`): the value must be a dictionary or the literal `none`.
+
+User variables (`global` section of the variable files given to the configuration layer,
+`DSLExperimentConfiguration.__init__` → `override_entrypoint_args`) are a layer above the arguments of
+`entrypoint.execute[0]`: `Namespace.effArgs` (user variable, else entrypoint argument, else declared default).
+
 Repaired behaviour is modelled (fixes/C06-*.diff); the old algorithms are kept as `…Old`.
 -/
 namespace St4sd.Dsl
@@ -36,6 +47,10 @@ inductive Tok where
   | par (p : Name)
   | ref (loc : Loc) (method : Option S)
   | suf (path : Loc) (method : Option S)
+  /-- a dictionary value (opaque: its canonical text); only ever the whole value -/
+  | dict (d : S)
+  /-- a number / boolean (text = `str(value)`); only ever the whole value -/
+  | num (t : S)
   deriving DecidableEq, Repr
 
 abbrev Val := List Tok
@@ -51,8 +66,9 @@ structure Exec where
   args : Env
   deriving Repr
 
+/-- `envParam` = the parameter named by `command.environment: "%(p)s"` (if the component has that field) -/
 inductive Body where
-  | component (arguments : Val)
+  | component (arguments : Val) (envParam : Option Name)
   | workflow (steps : List (Name × Name)) (execute : List Exec)
   deriving Repr
 
@@ -68,14 +84,23 @@ structure Template where
 def Template.isWf (t : Template) : Bool :=
   match t.body with
   | .workflow _ _ => true
-  | .component _ => false
+  | .component _ _ => false
 
-/-- `templates` in the lookup order of `Namespace.get_template` (components, then workflows). -/
+/-- `templates` in the lookup order of `Namespace.get_template` (components, then workflows);
+`userVars` = the `global` user variables handed to the configuration layer (empty when the compiler is called
+directly). -/
 structure Namespace where
   templates : List Template
   entry : Name
   entryArgs : Env
+  userVars : Env := []
   deriving Repr
+
+/-- `override_entrypoint_args = entrypoint.execute[0].args.copy(); .update(variables["global"])` -/
+def overlay (uvars args : Env) : Env := uvars ++ args.filter fun a => (uvars.lookup a.1).isNone
+
+/-- the arguments of the entry scope before the defaults are folded in: user variables over entrypoint arguments -/
+def Namespace.effArgs (ns : Namespace) : Env := overlay ns.userVars ns.entryArgs
 
 /-- Error location truncated to what identifies the offending YAML node:
 `entrypoint`, or `workflows|components / idx [/ execute / j]`. -/
@@ -116,17 +141,36 @@ def absTok (parent : Loc) : Tok → Tok
 
 def absolutise (parent : Loc) (v : Val) : Val := v.map (absTok parent)
 
-/-- `_replace_many_parameter_references` for string values: inserted text is not re-scanned; a reference to an
-unknown parameter stays (the code raises: the callers of `substT` flag `hasPar` of the result as an error) -/
+/-- what `_replace_many_parameter_references` inserts for a parameter with value `w` when the reference is only
+a part of the string: the text of a string, `str(fillin)` of a number, nothing for a dictionary (`ValueError`) -/
+def embed : Val → Option Val
+  | [.dict _] => none
+  | [.num t] => some [.lit t]
+  | w => some w
+
+/-- `_replace_many_parameter_references` inside a longer string: inserted text is not re-scanned; a reference to
+an unknown parameter or to a dictionary stays (the code raises `ValueError`: the callers flag `hasPar` of the
+result as an error at the location of the field) -/
 def substT (look : Name → Option Val) : Val → Val
   | [] => []
-  | .par p :: r => (match look p with | some v => v | none => [.par p]) ++ substT look r
+  | .par p :: r => (match (look p).bind embed with | some v => v | none => [.par p]) ++ substT look r
   | t :: r => t :: substT look r
+
+/-- the value is exactly one parameter reference (`start == 0 and match.start() == 0 and match.end() == len(what)`) -/
+def isWholePar : Val → Bool
+  | [.par _] => true
+  | _ => false
+
+/-- `_replace_many_parameter_references`: a value that is exactly `%(p)s` becomes the parameter's value with its
+type (dictionary, number, text); anything else is a string into which the values are embedded -/
+def substV (look : Name → Option Val) : Val → Val
+  | [.par p] => (look p).getD [.par p]
+  | v => substT look v
 
 /-- the four passes of `resolve_scope` on one parameter value of a scope instantiated inside the workflow
 instance `parent`: absolutise, substitute the parent's parameters, absolutise (and re-lex) again -/
 def resolve (parent : Loc) (look : Name → Option Val) (v : Val) : Val :=
-  merge (absolutise parent (substT look (absolutise parent (merge v))))
+  merge (absolutise parent (substV look (absolutise parent (merge v))))
 
 def refLocs : Val → List Loc
   | [] => []
@@ -170,6 +214,7 @@ structure Inst where
   tidx : Nat
   params : Env
   arguments : Val
+  envParam : Option Name := none
   deriving Repr
 
 structure Acc where
@@ -230,7 +275,7 @@ def visit (ns : Namespace) : Nat → List Name → Loc → Template → Env → 
   | 0, _, _, _, _, _ => { fuelOut := true }
   | fuel + 1, avail, loc, t, env, dsl =>
     match t.body with
-    | .component arguments => { insts := [⟨loc, dsl, t.idx, env, arguments⟩] }
+    | .component arguments envParam => { insts := [⟨loc, dsl, t.idx, env, arguments, envParam⟩] }
     | .workflow steps execute =>
       let cs := childrenOf ns avail t steps 0 execute
       let bad := (badExecs ns avail t steps 0 execute).map fun j => ErrLoc.tmpl true t.idx (some j)
@@ -314,12 +359,47 @@ inductive OTok where
   | dref (producer : Name) (fileref : Loc) (method : S)
   deriving DecidableEq, Repr
 
+/-- the environment of a compiled component: field absent, the literal `none` (empty), or a dictionary -/
+inductive EnvVal where
+  | unset
+  | empty
+  | dict (d : S)
+  deriving DecidableEq, Repr
+
+/-- `digest_dsl_component`: the parameter that `command.environment` names must exist (repaired: the code as it
+was raised `KeyError`) and its value must be a dictionary or the literal `none`; `none` = error -/
+def envOf (params : Env) : Option Name → Option EnvVal
+  | none => some .unset
+  | some p =>
+    match params.lookup p with
+    | some [.dict d] => some (.dict d)
+    | some [.lit s] => if s = "none".toList then some .empty else none
+    | _ => none
+
+/-- outcome of the environment check as coded before fixes/C06-environment-unknown-parameter.diff: the error
+about the unknown parameter is recorded and then `scope.parameters[param_name]` raises `KeyError` anyway -/
+inductive EnvOld where
+  | ok (e : EnvVal)
+  | dslError
+  | keyError
+  deriving DecidableEq, Repr
+
+def envOfOld (params : Env) : Option Name → EnvOld
+  | none => .ok .unset
+  | some p =>
+    match params.lookup p with
+    | none => .keyError
+    | some _ => match envOf params (some p) with
+      | some e => .ok e
+      | none => .dslError
+
 structure Comp where
   loc : Loc
   name : Name
   args : List OTok
   refs : List OTok
   producers : List Loc
+  env : EnvVal := .unset
   deriving Repr
 
 def slash (l : Loc) : S := l.foldr (fun x acc => '/' :: x ++ acc) []
@@ -348,11 +428,13 @@ def convTok (names : List (Loc × Name)) (t : Tok) : List OTok :=
     | some (p, f) => [.dref ((names.lookup p).getD []) f m]
     | none => []
   | .ref _ none => []
+  | .dict d => [.lit d]
+  | .num t => [.lit t]
 
 /-- one component: `resolve_parameter_references` on `command.arguments`, then
 `convert_outputreferences_to_datareferences`; `Except` = error locations of this component -/
 def digest (names : List (Loc × Name)) (i : Inst) : Except (List ErrLoc) Comp :=
-  let args0 := merge (substT (fun p => i.params.lookup p) i.arguments)
+  let args0 := merge (substV (fun p => i.params.lookup p) i.arguments)
   -- an unknown parameter makes `_replace_many_parameter_references` raise: the field keeps its text
   let e1 := if hasPar args0 then [ErrLoc.tmpl false i.tidx none] else []
   let args := if hasPar args0 then merge i.arguments else args0
@@ -368,7 +450,8 @@ def digest (names : List (Loc × Name)) (i : Inst) : Except (List ErrLoc) Comp :
     if (e1 ++ e2).isEmpty then
       .ok { loc := i.loc, name := (names.lookup i.loc).getD [], args := args.flatMap (convTok names),
             refs := all.flatMap (fun r => convTok names (.ref r.1 (some r.2))),
-            producers := (all.filterMap (fun r => (split scopes r.1).map (·.1))).eraseDups }
+            producers := (all.filterMap (fun r => (split scopes r.1).map (·.1))).eraseDups,
+            env := (envOf i.params i.envParam).getD .unset }
     else .error (e1 ++ e2)
 
 inductive Result where
@@ -382,11 +465,12 @@ def collect : List (Except (List ErrLoc) Comp) → List ErrLoc × List Comp
   | .ok c :: r => let (e, cs) := collect r; (e, c :: cs)
   | .error x :: r => let (e, cs) := collect r; (x ++ e, cs)
 
-/-- entry scope: arguments of `entrypoint.execute[0]` over the defaults of the entry template -/
+/-- entry scope: arguments (user variables over `entrypoint.execute[0].args`) over the defaults of the entry
+template -/
 def entryRaw (t : Template) (args : Env) : Env := rawParams t args
 
 def rootVisit (ns : Namespace) (t : Template) : Acc :=
-  let raw := entryRaw t ns.entryArgs
+  let raw := entryRaw t ns.effArgs
   let env : Env := raw.map fun a => (a.1, resolve [] (fun _ => none) a.2)
   visit ns ns.templates.length ((ns.templates.map (·.name)).erase t.name) [entryName] t env (.tmpl t.isWf t.idx none)
 
@@ -400,10 +484,17 @@ def entryErrsB (t : Template) (args : Env) : List ErrLoc :=
 
 /-- naming, `resolve_parameter_references`, `convert_outputreferences_to_datareferences` over the component
 instances in visit order -/
+def envErrs (insts : List Inst) : List ErrLoc :=
+  insts.filterMap fun i => match envOf i.params i.envParam with
+    | some _ => none
+    | none => some i.dsl
+
 def finish (insts : List Inst) : Result :=
   let steps := insts.map fun i => i.loc.getLast?.getD []
   let badNames := insts.filterMap fun i => if validName (i.loc.getLast?.getD []) then none else some i.dsl
-  if !badNames.isEmpty then .invalid 3 badNames
+  -- `digest_dsl_component` runs (and its errors are raised) before the components are named
+  if !(envErrs insts).isEmpty then .invalid 5 (envErrs insts)
+  else if !badNames.isEmpty then .invalid 3 badNames
   else match assignNames [] steps with
     | none => .outOfFuel
     | some names =>
@@ -420,13 +511,13 @@ def flattenOp (ns : Namespace) : Result :=
   match ns.find ns.entry with
   | none => .invalid 0 [.entry]
   | some t =>
-    if entryMissing t ns.entryArgs then .invalid 1 [.tmpl t.isWf t.idx none]
-    else if entryUnknown t ns.entryArgs then .invalid 1 [.entry]
+    if entryMissing t ns.effArgs then .invalid 1 [.tmpl t.isWf t.idx none]
+    else if entryUnknown t ns.effArgs then .invalid 1 [.entry]
     else if (rootVisit ns t).fuelOut then .outOfFuel
-    else if !(entryErrsA t ns.entryArgs ++ (rootVisit ns t).errsA).isEmpty then
-      .invalid 1 (entryErrsA t ns.entryArgs ++ (rootVisit ns t).errsA)
-    else if !(entryErrsB t ns.entryArgs ++ (rootVisit ns t).errsB).isEmpty then
-      .invalid 2 (entryErrsB t ns.entryArgs ++ (rootVisit ns t).errsB)
+    else if !(entryErrsA t ns.effArgs ++ (rootVisit ns t).errsA).isEmpty then
+      .invalid 1 (entryErrsA t ns.effArgs ++ (rootVisit ns t).errsA)
+    else if !(entryErrsB t ns.effArgs ++ (rootVisit ns t).errsB).isEmpty then
+      .invalid 2 (entryErrsB t ns.effArgs ++ (rootVisit ns t).errsB)
     else finish (rootVisit ns t).insts
 
 /-! ## denotational specification -/
@@ -446,6 +537,8 @@ def valueOf : List Frame → Name → Option Val
 structure SpecInst where
   loc : Loc
   args : Val
+  /-- value, along the call chain, of the parameter the component uses as its environment -/
+  env : Option Val := none
   deriving DecidableEq, Repr
 
 /-- every path of step names from the entrypoint that ends in a component step, in `execute` order, with the
@@ -454,19 +547,20 @@ def specVisit (ns : Namespace) : Nat → List Name → Loc → Template → List
   | 0, _, _, _, _ => []
   | fuel + 1, avail, loc, t, chain =>
     match t.body with
-    | .component arguments => [⟨loc, merge (substT (valueOf chain) arguments)⟩]
+    | .component arguments envParam => [⟨loc, merge (substV (valueOf chain) arguments), envParam.bind (valueOf chain)⟩]
     | .workflow steps execute =>
       (childrenOf ns avail t steps 0 execute).flatMap fun c =>
         specVisit ns fuel (avail.erase c.callee.name) (loc ++ [c.target]) c.callee (⟨loc, c.raw⟩ :: chain)
 
-def Inst.toSpec (i : Inst) : SpecInst := ⟨i.loc, merge (substT (fun p => i.params.lookup p) i.arguments)⟩
+def Inst.toSpec (i : Inst) : SpecInst :=
+  ⟨i.loc, merge (substV (fun p => i.params.lookup p) i.arguments), i.envParam.bind (fun p => i.params.lookup p)⟩
 
 def flattenSpec (ns : Namespace) : List SpecInst :=
   match ns.find ns.entry with
   | none => []
   | some t =>
     specVisit ns ns.templates.length ((ns.templates.map (·.name)).erase t.name) [entryName] t
-      [⟨[], entryRaw t ns.entryArgs⟩]
+      [⟨[], entryRaw t ns.effArgs⟩]
 
 /-- producer/consumer relation of the specification: a consumer instance and the component instance whose
 path is a prefix of the (absolute) location of one of its complete output references -/
